@@ -52,7 +52,12 @@ HOLES = [
 SEPS = ['/', '/', '/', '/x/', '-', '.', '.html', '_', '%', ' ', '~', '/\xe9/', ',', ';', '=', '/%/', '/a b/', '.€', '@', '+',
         '/(x)/', '/[', '$', '^', '?', '#x', '\\']
 LITS = ['', '', 'a', 'app', 'x y', '100%', 'caf\xe9', '€', 'v1.0', 'a+b', '(x)', '[z]', 'q?', '#h', 'a&b=c', "it's", '~u',
-        ASTRAL, 'A;p', 'a,b', '%41', '%%', '^$', '\\d', 'x|y', 'Jose\u0301', '\u212bm', 'Stra\xdfe', ' pad ']
+        ASTRAL, 'A;p', 'a,b', '%41', '%%', '^$', '\\d', 'x|y', 'Jose\u0301', '\u212bm', 'Stra\xdfe', ' pad ',
+        ':8080', '12:30', '{8080}']
+# literal text that LOOKS like a marker to a slightly different module regex (old_route_re / route_re / star_at_end): a colon
+# followed by a digit, a non-ASCII letter or digit, punctuation or nothing; braces around a non-name.  In an old-style
+# pattern (':name' markers, no '{..}') they must stay literal text
+OLD_COLON_LITS = [':8080', '12:30', 'v:2', ':\xe9', 'a:', '::', ':-', ':1x', 'at:\u0661', 'localhost:8080', ':\u0301']
 NAMES = ['id', 'name', 'x', 'y', 'n0', 'n1', '_v', 'slug']
 STARS = ['rest', 'traverse', 'subpath', 'tail']
 
@@ -100,7 +105,7 @@ def gen_pattern(rng, separable=True):
     """-> (pattern text, elems, star)"""
     for _ in range(50):
         elems, star = gen_struct(rng, separable)
-        old = rng.random() < 0.06 and all(e[0] == 'lit' or e[2][0] is None for e in elems) \
+        old = rng.random() < 0.10 and all(e[0] == 'lit' or e[2][0] is None for e in elems) \
             and not any(e[0] == 'lit' and ('{' in e[1] or ':' in e[1]) for e in elems)
         if old:
             # old-style names end at the first non-word character: keep the literal after a name non-word
@@ -112,6 +117,9 @@ def gen_pattern(rng, separable=True):
                     ok = False
             if not ok:
                 old = False
+        if old and rng.random() < 0.5:
+            # a literal colon that is not a marker, in front of the first marker (kept apart from it by '/')
+            elems = [('lit', elems[0][1].rstrip('/') + '/' + rng.choice(OLD_COLON_LITS) + '/')] + list(elems[1:])
         p = render(elems, star, old)
         if '*' in p[:-1 - len(star or '')] and star is None:
             continue
@@ -522,6 +530,13 @@ def targeted(rng):
         out.append(simple_case('/' + s + '/{x}/' + s, [['x', ['v', ['s', s]]]]))
         out.append(simple_case('/f/{x}.' + s, [['x', ['v', ['s', 'n']]]], els=[['s', s]]))
         out.append(simple_case('/g/*r', [['r', ['q', [['s', s], ['s', 'k']], 'list']]], script='/' + s))
+    for piece in OLD_COLON_LITS + ['{8080}', '{}', '{ x}']:
+        # old-style spelling, the same pattern new-style, and the placeholder-free pattern
+        if '{' not in piece:
+            out.append(simple_case('/p/' + piece + '/:x', [['x', ['v', ['s', 'v']]]]))
+            out.append(simple_case('/p/' + piece + '/:x/*rest', [['x', ['v', ['s', 'v']]], ['rest', ['q', [['s', 'a']], 'tuple']]]))
+        out.append(simple_case('/p/' + piece + '/{x}', [['x', ['v', ['s', 'v']]]]))
+        out.append(simple_case('/c/' + piece, []))
     out += hist_pairs()
     for _ in range(300):
         out.append(gen_req_case(rng))
